@@ -17,20 +17,21 @@ from lib_text import Ref
 
 PROPERTY = "C05"
 
-# CODE VARIANT FLAGS  (1 = rich 9.10.0 as released, 0 = repaired by pending_fixes/C05-*.diff; see Model/Text.lean `Variant`)
+# CODE VARIANT FLAGS  (1 = rich 9.10.0 as released, 0 = repaired = what /repo contains now: fixes 0149e10, ba4c9a6, 3a84457, b5c0e99,
+#                      aad03fe, 9ca68f6 (the former pending_fixes/C05-*.diff); see Model/Text.lean `Variant`)
 CTOR_LEN = 0  # Text.__init__: _length = len(text) before control codes are stripped (pre-finding F1)
 CROP_ENDS = 0  # Text.right_crop(0) erases the text; right_crop(n > len) makes _length negative
 STYLIZE_NEG = 0  # Text.stylize(start < -len) stores a negative span start; render repeats characters / raises
 GETITEM = 0  # Text.__getitem__(int) drops the base style, and all spans for a negative index
 DIVIDE_ORDER = 0  # Text.divide re-orders spans through its value-keyed `order` dict (a split remainder equal to a later span)
 ALIGN_NEG = 0  # Text.align pads by a negative excess (text wider than the width): pad_left shifts the spans off their characters
-RSTRIP_END_CHARS = 0  # Text.rstrip_end compares the CHARACTER count with the cell width (pending_fixes/C08-rstrip-end-counts-cells.diff
-#                       makes it cell_len); separate request argument of text_rstrip_end, Lean: first argument of Text.rstripEndW
+RSTRIP_END_CHARS = 0  # 1 = as found: Text.rstrip_end compares the CHARACTER count with the cell width; 0 = fix f5f2be9 (in /repo now; was
+#                       pending_fixes/C08-rstrip-end-counts-cells.diff) makes it cell_len; separate request argument of text_rstrip_end, Lean: first argument of Text.rstripEndW
 RSTRIP_END_CHARS = int(__import__("os").environ.get("VERIF_C05_RSTRIP_END_CHARS", RSTRIP_END_CHARS))  # development aid, as VERIF_C05_FLAGS
 FLAGS = "".join(str(x) for x in (CTOR_LEN, CROP_ENDS, STYLIZE_NEG, GETITEM, DIVIDE_ORDER, ALIGN_NEG))
 import os as _os
 
-# development aid only (used to validate pending_fixes against a patched checkout): VERIF_C05_FLAGS=000000 VERIF_REPO=<worktree>
+# development aid only (was used to validate the pending_fixes diffs against a patched checkout before they became fix: commits): VERIF_C05_FLAGS=000000 VERIF_REPO=<worktree>
 FLAGS = _os.environ.get("VERIF_C05_FLAGS", FLAGS)
 
 STYLES = L.STYLE_NAMES[1:7]
@@ -815,7 +816,10 @@ MANIFEST = {
     "blank_copy, text[i], rstrip, truncate, align, join, assemble, divide, text[a:b], split(char), expand_tabs - and hence by every history "
     "(inv_history_all). (3) Per-operation refinement view(op t) = <list operation>(view t): characters, order and the ordered style list of "
     "every survivor, for all of these except the three marked partial; styling-only operations never change characters or len(). Seven "
-    "defects of rich 9.10.0 are carried as variant flags with machine-checked witnesses (old_* theorems); six are repaired in /repo. "
+    "defects of rich 9.10.0 as found are carried as variant flags (the six fields of Variant + the rstrip_end flag `chars`; `true` = as found) with "
+    "machine-checked witnesses (old_* theorems; the rstrip_end one is C02's old_wrap_ellipsis_drops_fitting_char / C08's "
+    "old_rule_short_after_rstrip); all seven are repaired in /repo (fixes 0149e10, ba4c9a6, 3a84457, b5c0e99, aad03fe, 9ca68f6, f5f2be9) and "
+    "every flag constant holds the repaired value 0. "
     "Tie: 27 driver entry points compared state-by-state (plain, _length, spans, style, attributes and the render() segments) with real "
     "rich.text.Text objects on ~110k (quick) / ~1M (thorough) generated requests per run; independently a reference styled string undergoes "
     "'the same operation on an ordinary string' and is compared with plain / len() / render() after every step of every history "
@@ -826,7 +830,8 @@ MANIFEST = {
     "include_separator=True, concatenation-level), expand_tabs_view_partial (invariant + non-whitespace characters and styles; the column "
     "arithmetic of the blanks is compared with rich and with an expandtabs-like oracle, not proved). divide_view / split_char_spec / "
     "expandTabs_ink' are proved in Lemmas/WrapDivide.lean and Lemmas/WrapTabs.lean (built by property C02 on this model) and imported. "
-    "rstrip_end's amount (characters vs cells, flag RSTRIP_END_CHARS / Text.rstripEndW, pending_fixes/C08-rstrip-end-counts-cells.diff) is "
+    "rstrip_end's amount (characters = rich 9.10.0 as found, `chars = true`; cells = fix f5f2be9, what /repo does now, `chars = false`; flag "
+    "RSTRIP_END_CHARS / first argument of Text.rstripEndW) is "
     "pinned by model-vs-code only; C05's oracle checks that only trailing whitespace goes. "
     "Trusted: Lean kernel; axioms propext/Classical.choice/Quot.sound; translator harness/gen/text_tables.py (STRIP_CONTROL_CODES, and "
     "the running CPython's str.isspace set, cross-checked against regex \\s and str.rstrip); the correspondence harness; "
